@@ -73,6 +73,10 @@ func H_C14_JSONFormatter() {
 	e, p, ks, vs, n := symEvent()
 	a0, b0, t0, c0, pl0 := p.a, p.b, e.Type, e.CreatedAt, e.Payload
 	want, encodable := refJSON(e)
+	if e.Payload == nil {
+		// a document of a time in range, a string and null always encodes: the encoder's failure is the payload's doing
+		verifAssume(encodable)
+	}
 	var out *Event
 	var err error
 	pk := 0
